@@ -89,6 +89,12 @@ def run_case(case):
             out["sample"] = {"kind": case["kind"], "files": [p for p, _ in files], "wasm": wasm,
                              "defines": sorted(defines(r["ir"]))[:12]}
         return out
+    # an LLVM message says little about the cause: key the finding on where the input came from as well (a corpus file by
+    # name, any other workload by its class), so that the same message on another input is still reported
+    kind = case["kind"].split(":")[0]
+    base = kind[:-5] if kind.endswith("_wasm") else kind
+    origin = files[0][0] if base in ("corpus", "mutant", "modules") else base
+    problems = [("%s [on %s]" % (s, origin) if "rejected by" in s else s, d) for s, d in problems]
     sig, detail = problems[0]
     return {"verdict": VIOLATED, "sig": sig, "detail": detail, "cov": cov,
             "replay": {"files": files, "wasm": wasm, "kind": case["kind"]},
